@@ -8,7 +8,7 @@ S=$(mktemp -d /tmp/baseline.XXXXXX)
 trap 'rm -rf "$S"' EXIT
 rsync -a --exclude .git /repo/ "$S/repo/"
 cd "$S/repo" || exit 2
-go test -json -vet=off -count=1 -timeout 25m ./... 2>/dev/null | grep -E '"Action":"(pass|fail)"' | grep '"Test"' > "$S/events.json"
+go test -json -vet=off -count=1 -timeout 12m ./... 2>/dev/null | grep -E '"Action":"(pass|fail)"' | grep '"Test"' > "$S/events.json"
 python3 - "$S/events.json" <<'PY'
 import json,sys
 base=json.load(open('/root/.vp/BASELINE.json'))
